@@ -448,6 +448,12 @@ def child_main(infile, outfile):
         for c in cases:
             if c.get("kind") == "realtime":
                 r = run_realtime(c)
+            elif c.get("kind") in ("cache", "multi"):
+                try:
+                    o, fin = run_cache_case(c) if c["kind"] == "cache" else run_multi_case(c)
+                    r = {"obs": o, "final": fin}
+                except Exception as e:  # noqa: BLE001
+                    r = {"crash": repr(e)}
             else:
                 r = run_schedule(c)
             f.write(json.dumps(r) + "\n")
@@ -494,6 +500,162 @@ def run_cache_case(spec):
             except Exception as e:  # noqa: BLE001
                 final[fn] = "unreadable: " + repr(e)
     return obs, final
+
+
+# ---------------------------------------------------------------------------------------
+# several indexes alive in one process: own model, own cache configuration each
+
+
+def fake_emb_m(m, text):
+    """model number m: a different vector for every (model, text)"""
+    return [float(1000 + m)] + fake_emb(text)
+
+
+def decode_vec_m(v):
+    if not isinstance(v, list) or len(v) < 2 or not isinstance(v[0], float) or v[0] < 1000:
+        raise ValueError(f"not a fake embedding: {v!r}")
+    return int(v[0]) - 1000, decode_vec(v[1:])
+
+
+class FakeModelM(FakeModel):
+    def __init__(self, m):
+        super().__init__(None)
+        self.m = m
+
+    async def encode_async(self, texts):
+        self.calls.append(list(texts))
+        await asyncio.sleep(0)
+        return [fake_emb_m(self.m, t) for t in texts]
+
+
+def run_multi_case(spec):
+    """spec: {indexes: [{gen, store, dir_id, model, enabled}], calls: [[i, [text..]]..], base}.
+    All indexes are created first and stay alive; calls are made in the given order."""
+    sys.path.insert(0, C.REPO)
+    import nemoguardrails.embeddings.basic as basic
+
+    register_colliding_generator()
+    ixs, models = [], []
+    for c in spec["indexes"]:
+        kw = {}
+        if c["enabled"]:
+            sc = {"cache_dir": os.path.join(spec["base"], f"d{c['dir_id']}")} if c["store"] == "filesystem" else {}
+            kw["cache_config"] = {"enabled": True, "key_generator": c["gen"], "store": c["store"], "store_config": sc}
+        ix = basic.BasicEmbeddingsIndex(**kw)
+        m = FakeModelM(c["model"])
+        ix._model = m
+        ixs.append(ix)
+        models.append(m)
+    obs = []
+
+    async def main():
+        for i, texts in spec["calls"]:
+            models[i].calls = []
+            try:
+                r = await ixs[i]._get_embeddings(list(texts))
+                obs.append({"raw": r, "calls": models[i].calls})
+            except Exception as e:  # noqa: BLE001
+                obs.append({"exc": repr(e), "calls": models[i].calls})
+                break
+
+    asyncio.run(main())
+    final = {}
+    for c in spec["indexes"]:
+        if c["enabled"] and c["store"] == "filesystem" and c["dir_id"] not in final:
+            d = os.path.join(spec["base"], f"d{c['dir_id']}")
+            final[c["dir_id"]] = {}
+            for fn in sorted(os.listdir(d)) if os.path.isdir(d) else []:
+                try:
+                    final[c["dir_id"]][fn] = json.load(open(os.path.join(d, fn)))
+                except Exception as e:  # noqa: BLE001
+                    final[c["dir_id"]][fn] = "unreadable: " + repr(e)
+    return obs, final
+
+
+def multi_expected_isolated(spec, i):
+    """True if the assumption of C19_cache_isolation holds for index i: no other index with a
+    different model resolves to the same store, and the key generator is a shipped one."""
+    c = spec["indexes"][i]
+    if not c["enabled"]:
+        return True
+    if c["gen"] not in ("hash", "md5"):
+        return False
+    if c["store"] != "filesystem":
+        return True
+    for o in spec["indexes"]:
+        if o is not c and o["enabled"] and o["store"] == "filesystem" and o["dir_id"] == c["dir_id"] \
+                and o["model"] != c["model"]:
+            return False
+    return True
+
+
+def multi_case_term(spec, obs, final):
+    T = Atoms()
+    for _i, texts in spec["calls"]:
+        for t in texts:
+            T(t)
+    universe = list(T.ids)
+    K = Atoms()
+    ixs = []
+    for c in spec["indexes"]:
+        keys = [K(key_of(c["gen"], t)) for t in universe] if c["enabled"] else [0 for _ in universe]
+        sid = f"(Some {c['dir_id']})" if (c["enabled"] and c["store"] == "filesystem") else "None"
+        ixs.append(f"({coq_nat_list(keys)}, {c['model']}, {sid}, {C.coq_bool(c['enabled'])})")
+
+    def vec(v):
+        m, t = decode_vec_m(v)
+        return f"(Some ({m}, {T.get(t)}))"
+
+    calls = []
+    for (i, texts), o in zip(spec["calls"], obs):
+        if "exc" in o:
+            return None, "exception " + o["exc"]
+        if not isinstance(o["raw"], list):
+            return None, "result is not a list"
+        try:
+            res = ["None" if v is None else vec(v) for v in o["raw"]]
+        except ValueError:
+            return None, "undecodable vector"
+        mc = C.coq_list([coq_nat_list([T.get(t) for t in c]) for c in o["calls"]])
+        calls.append(f"({i}, {coq_nat_list([T(t) for t in texts])}, {C.coq_list(res)}, {mc})")
+    fin = []
+    for d, files in final.items():
+        for fn, v in files.items():
+            if fn not in K.ids:
+                return None, f"file {fn} in store {d} is not the key of any text"
+            try:
+                fin.append(f"({d}, {K.ids[fn]}, {vec(v)})")
+            except ValueError:
+                return None, "undecodable stored value"
+        for k, kid in K.ids.items():
+            if k not in files:
+                fin.append(f"({d}, {kid}, None)")
+    return f"(({C.coq_list(ixs)}, {C.coq_list(calls)}, {C.coq_list(fin)}) : multi_case)", None
+
+
+def gen_multi_spec(rng, base_dir, k):
+    pool = rng.sample(TEXT_POOL, rng.randint(1, 4))
+    nix = rng.choice([2, 2, 3, 4])
+    same_model = rng.random() < 0.2
+    indexes = []
+    for j in range(nix):
+        r = rng.random()
+        enabled = r > 0.1
+        gen = rng.choice(["hash", "md5", "md5", "hash", "md5", "verif_len"])
+        store = rng.choice(["in_memory", "filesystem", "filesystem", "filesystem"])
+        # mostly every index has its own cache_dir; sometimes two share one
+        dir_id = rng.randrange(j + 1) if rng.random() < 0.2 else j
+        indexes.append({"gen": gen, "store": store, "dir_id": dir_id, "model": 1 if same_model else j + 1,
+                        "enabled": enabled})
+    if rng.random() < 0.6:   # the common deployment: same generator and store type, own folder each
+        g, st = indexes[0]["gen"], indexes[0]["store"]
+        for c in indexes:
+            c["gen"], c["store"], c["enabled"] = g, st, True
+    calls = []
+    for _ in range(rng.randint(2, 6)):
+        n = rng.choice([1, 1, 2, 3, 4])
+        calls.append([rng.randrange(nix), [rng.choice(pool) for _ in range(n)]])
+    return {"kind": "multi", "indexes": indexes, "calls": calls, "base": os.path.join(base_dir, f"m{k}")}
 
 
 class Atoms:
@@ -746,13 +908,15 @@ def read_store_dir(d):
     return out
 
 
-def run_children(cases, tag, timeout_s):
+def run_children(cases, tag, timeout_s, per_case=False):
     """Run schedule cases in parallel child processes under `timeout`; returns list of observations
     (None where the child died before reaching the case)."""
     d = os.path.join(C.BUILD, "c19", tag)
     shutil.rmtree(d, ignore_errors=True)
     os.makedirs(d)
     nproc = max(1, min(C.NPROC, (len(cases) + 19) // 20))
+    if per_case:
+        nproc = max(1, len(cases))
     chunks = [cases[i::nproc] for i in range(nproc)]
     import subprocess
 
@@ -787,6 +951,70 @@ def nontrivial_trace(case, r):
         if e["l"][0] == "req":
             per[e["l"][1]] = per.get(e["l"][1], 0) + 1
     return r.get("n_batches", 0) >= 2 or any(v >= 3 for v in per.values())
+
+
+def first_wrong(spec, obs):
+    """The property oracle on one cache / several-indexes case: (kind, text) of the first call
+    whose result is not the vectors of the calling index's own model, or None."""
+    if spec["kind"] == "cache":
+        for texts, o in zip(spec["calls"], obs):
+            if "exc" in o:
+                return "raises", f"_get_embeddings({texts!r}) raised {o['exc']}"
+            if o["raw"] != [fake_emb(t) for t in texts]:
+                return "wrong-vector", f"_get_embeddings({texts!r}) returned {o['raw']!r}"
+        return None
+    for (i, texts), o in zip(spec["calls"], obs):
+        c = spec["indexes"][i]
+        if not multi_expected_isolated(spec, i):
+            continue
+        if "exc" in o:
+            return "raises", f"index {i}: _get_embeddings({texts!r}) raised {o['exc']}"
+        if o["raw"] != [fake_emb_m(c["model"], t) for t in texts]:
+            def show(v):
+                try:
+                    return "model %d's vector of %r" % decode_vec_m(v)
+                except ValueError:
+                    return repr(v)
+            got = [show(v) for v in o["raw"]] if isinstance(o["raw"], list) else repr(o["raw"])
+            return "foreign-vector", (f"index {i} (model {c['model']}, {c['gen']}/{c['store']}, cache_dir #{c['dir_id']}) "
+                                      f"_get_embeddings({texts!r}) returned {got}")
+    return None
+
+
+def confirm_in_fresh_process(out, candidates, base_dir, tag):
+    """candidates: {signature: [(size, what, spec), ...]} observed in THIS process, where earlier
+    cases may have left state behind in the implementation (module-level caches).  A replay must
+    fail on its own: every candidate (smallest first, at most 10 per signature) is re-run alone in
+    a fresh child process and reported only if it fails there too."""
+    todo = []
+    for sig, lst in sorted(candidates.items()):
+        for j, (size, what, spec) in enumerate(sorted(lst, key=lambda x: x[0])[:10]):
+            if len(todo) >= 40:
+                break
+            sp = json.loads(json.dumps(spec))
+            if sp["kind"] == "cache":
+                sp["dir"] = os.path.join(base_dir, f"{tag}{len(todo)}")
+            else:
+                sp["base"] = os.path.join(base_dir, f"{tag}{len(todo)}")
+            todo.append((sig, what, sp))
+    if not todo:
+        return
+    obs, _logs = run_children([sp for _s, _w, sp in todo], "confirm_" + tag, 300, per_case=True)
+    done = set()
+    for (sig, what, sp), r in zip(todo, obs):
+        if sig in done or r is None or "obs" not in r:
+            continue
+        w = first_wrong(sp, r["obs"])
+        if w is not None:
+            done.add(sig)
+            out.findings.append(C.Finding(sig, w[1], {k: v for k, v in sp.items() if k not in ("dir", "base")}))
+    for sig, lst in sorted(candidates.items()):
+        if sig not in done:
+            size, what, spec = min(lst, key=lambda x: x[0])
+            out.findings.append(C.Finding(
+                sig + ":only-after-earlier-cases-in-the-same-process",
+                what + " (fails only when earlier cases ran in the same process: the implementation keeps state across index objects)",
+                {k: v for k, v in spec.items() if k not in ("dir", "base")}))
 
 
 ANCHOR_HASHES = {}
@@ -842,8 +1070,9 @@ def run(tier, seed, replay=None):
     n_cache = 1500 if tier == "quick" else 12000
     n_sched = 500 if tier == "quick" else 20000
     n_rt = 24 if tier == "quick" else 200
+    n_multi = 400 if tier == "quick" else 4000
     if amplified and tier == "quick":
-        n_cache, n_sched, n_rt = n_cache * 4, n_sched * 6, n_rt * 3
+        n_cache, n_sched, n_rt, n_multi = n_cache * 4, n_sched * 6, n_rt * 3, n_multi * 4
 
     base_dir = tempfile.mkdtemp(prefix="verif_c19_")
     corpus_dir = os.path.join(C.VERIF, "corpus", PID)
@@ -856,10 +1085,12 @@ def run(tier, seed, replay=None):
     if replay:
         d = json.load(open(replay))
         pre_cases = [d.get("replay", d)]
-        n_cache = n_sched = n_rt = 0
+        n_cache = n_sched = n_rt = n_multi = 0
     for j, c in enumerate(pre_cases):  # private directories
         if c.get("kind") == "cache":
             c["dir"] = os.path.join(base_dir, f"pc{j}")
+        elif c.get("kind") == "multi":
+            c["base"] = os.path.join(base_dir, f"pm{j}")
         elif c.get("kind") == "trace" and c["cfg"].get("cache"):
             c["cfg"]["cache"]["dir"] = os.path.join(base_dir, f"ps{j}")
 
@@ -901,8 +1132,7 @@ def run(tier, seed, replay=None):
                 shape = "dups" if any(len(set(t)) < len(t) for t in spec["calls"]) else "nodups"
                 sig = f"cache:wrapper_decorator:{wrong[0]}:{tag}:{shape}"
                 size = sum(len(t) + 1 for t in spec["calls"])
-                if sig not in cache_find or size < cache_find[sig][0]:
-                    cache_find[sig] = (size, wrong[1], {k: v for k, v in spec.items() if k != "dir"})
+                cache_find.setdefault(sig, []).append((size, wrong[1], spec))
             elif wrong and not shipped:
                 collisions_shown += 1
             term, why = cache_case_term(spec, obs, final)
@@ -918,8 +1148,7 @@ def run(tier, seed, replay=None):
                     n_nontrivial += 1
             terms.append(term)
             kept.append(spec)
-        for sig, (_sz, what, payload) in sorted(cache_find.items()):
-            out.findings.append(C.Finding(sig, what, payload))
+        confirm_in_fresh_process(out, cache_find, base_dir, "cf")
         cache_dis = 0
         if okm and terms:
             bools, err = C.run_cases(PID + "_cache", PREAMBLE, terms, "check_cache")
@@ -933,6 +1162,74 @@ def run(tier, seed, replay=None):
                     model = C.eval_term(PID + "_cache", PREAMBLE, f"model_cache {t}")
                     out.add_broken("correspondence:C19-cache",
                                    f"{len(badc)} disagreements; smallest: {({k: v for k, v in s.items() if k != 'dir'})} case={t} model answers {model[-1500:]}")
+        # ---------------- several indexes in one process
+        multi_specs = [c for c in pre_cases if c.get("kind") == "multi"]
+        multi_specs += [gen_multi_spec(rng, base_dir, k) for k in range(n_multi)]
+        mterms, mkept = [], []
+        multi_find = {}
+        multi_shared_shown = 0
+        mdist = {"same_cfg_own_dir_diff_model": 0, "shared_dir_diff_model": 0, "other": 0}
+        for spec in multi_specs:
+            try:
+                obs, final = run_multi_case(spec)
+            except Exception as e:  # noqa: BLE001
+                out.add_broken("correspondence:C19-multi(driver)", f"{spec}: {e!r}")
+                continue
+            en = [c for c in spec["indexes"] if c["enabled"]]
+            shared = any(not multi_expected_isolated(spec, i) for i in range(len(spec["indexes"]))
+                         if spec["indexes"][i]["gen"] in ("hash", "md5"))
+            owncfg = len(en) >= 2 and len({(c["gen"], c["store"]) for c in en}) == 1 and \
+                len({c["model"] for c in en}) >= 2 and not shared
+            mdist["shared_dir_diff_model" if shared else "same_cfg_own_dir_diff_model" if owncfg else "other"] += 1
+            for (i, texts), o in zip(spec["calls"], obs):
+                c = spec["indexes"][i]
+                want = [fake_emb_m(c["model"], t) for t in texts]
+                if "exc" in o:
+                    wrong = ("raises", f"index {i}: _get_embeddings({texts!r}) raised {o['exc']}")
+                elif o["raw"] != want:
+                    def show(v):
+                        try:
+                            return "model %d's vector of %r" % decode_vec_m(v)
+                        except ValueError:
+                            return repr(v)
+                    wrong = ("foreign-vector", f"index {i} (model {c['model']}, {c['gen']}/{c['store']}, cache_dir #{c['dir_id']}) "
+                             f"_get_embeddings({texts!r}) returned {[show(v) for v in o['raw']] if isinstance(o['raw'], list) else o['raw']!r}")
+                else:
+                    continue
+                if multi_expected_isolated(spec, i):
+                    cache_viol += 1
+                    sig = f"cache:wrapper_decorator:{wrong[0]}:several-indexes:{c['gen']}/{c['store']}"
+                    size = len(spec["indexes"]) * 100 + sum(len(t) + 1 for _i, t in spec["calls"])
+                    multi_find.setdefault(sig, []).append((size, wrong[1], spec))
+                else:
+                    multi_shared_shown += 1
+                break
+            term, why = multi_case_term(spec, obs, final)
+            if term is None:
+                if not multi_find:
+                    out.add_broken("correspondence:C19-multi(observation)", f"{why}: {spec}")
+                continue
+            h = C.canon_hash(term)
+            if h not in seen:
+                seen.add(h)
+                if len(en) >= 2 and len({i for i, _t in spec["calls"]}) >= 2:
+                    n_nontrivial += 1
+            mterms.append(term)
+            mkept.append(spec)
+        confirm_in_fresh_process(out, multi_find, base_dir, "mf")
+        multi_dis = 0
+        if okm and mterms:
+            bools, err = C.run_cases(PID + "_multi", PREAMBLE, mterms, "check_multi")
+            if err:
+                out.add_broken("correspondence:C19-multi(coqc)", err)
+            else:
+                badm = [(sp, t) for ok, sp, t in zip(bools, mkept, mterms) if not ok]
+                multi_dis = len(badm)
+                if badm:
+                    sp, t = min(badm, key=lambda x: len(x[1]))
+                    model = C.eval_term(PID + "_multi", PREAMBLE, f"model_multi {t}")
+                    out.add_broken("correspondence:C19-multi",
+                                   f"{len(badm)} disagreements; smallest: {({k: v for k, v in sp.items() if k != 'base'})} case={t} model answers {model[-1500:]}")
         t_cache = time.time() - t0
 
         # ---------------- batching: trace inclusion + oracle
@@ -1020,26 +1317,29 @@ def run(tier, seed, replay=None):
         shutil.rmtree(base_dir, ignore_errors=True)
 
     out.coverage.update({
-        "evaluations": len(terms) + len(tterms) + len(rts),
+        "evaluations": len(terms) + len(mterms) + len(tterms) + len(rts),
         "distinct_nontrivial": n_nontrivial,
-        "rule": "cache: cache enabled, >=2 texts in play and (>=2 calls on one store or a duplicate inside one call); "
+        "rule": "several indexes: >=2 indexes with the cache enabled and calls on >=2 of them; cache: cache enabled, >=2 texts in play and (>=2 calls on one store or a duplicate inside one call); "
                 "batch: >=2 requests and (>=2 batches or a request that found the queue full and waited for "
                 "_current_batch_submitted); distinct by hash of the Coq case term (cache) / of (max_batch_size, cache mode, label sequence) (batch)",
         "samples": [{k: v for k, v in s.items() if k != "dir"} for s in kept[:2]]
                    + [{"cfg": {"max": c["cfg"]["max"], "cache": (c["cfg"].get("cache") or {}).get("store")}, "texts": c["texts"],
                        "labels": [e["l"] for e in r["log"]]} for c, r in tkept[:2]],
         "input_distribution": {"cache_configs": dist, "trace": tdist, "corpus_cases": corpus_n,
+                               "several_indexes_cases": {**mdist, "total": len(mterms),
+                                                         "shared_store_different_models_impl_and_model_both_return_the_other_models_vector": multi_shared_shown},
                                "realtime_unwrapped_runs": len(rts),
                                "colliding_generator_cases_where_impl_and_model_both_return_a_wrong_vector": collisions_shown},
         "traces_validated_against_impl": len(tterms),
         "trace_steps_replayed": trace_steps,
-        "correspondence_disagreements": cache_dis + trace_dis,
+        "correspondence_disagreements": cache_dis + multi_dis + trace_dis,
         "oracle_violations": cache_viol + len(tviol),
         "anchor_ast_hashes": hashes,
         "amplified": amplified,
         "timings_s": {"cache": round(t_cache, 1), "batch": round(t_batch, 1)},
     })
     out.assumptions += [
+        "several indexes in one process: configurations that resolve to the same store (same filesystem cache_dir) agree on key generator and embedding model (C19_cache_isolation; C19_cache_shared_store_refuted shows the second index gets the first model's vectors otherwise - this is what the unchanged code does, e.g. with the default cache_dir '.cache/embeddings' for two indexes with different models); that distinct cache_dirs / in_memory configurations are distinct stores in the implementation is CHECKED by the several-indexes differential and its oracle",
         "key generator injective on the texts in play (shipped: str(hash(text)) and md5; C19_cache_collision_refuted shows the property fails otherwise; the harness checks injectivity of the real generators on every generated case through the key table)",
         "the embedding model is a function of each text alone (emb), returns one vector per text and does not raise; a raising model leaves the batch's requests waiting forever (observation, outside the statement)",
         "max_batch_size >= 1 (0 makes every request wait forever; C19_default_batch_size_positive for the shipped default)",
